@@ -43,7 +43,7 @@ def run(ctx):
     d, rng = ctx.driver, ctx.rng
     quick = ctx.tier == "quick"
     nr = numpy.random.RandomState(ctx.seed * 17 + 3)
-    ncases = 90 if quick else 600
+    ncases = 90 if quick else 2400
     for case in range(ncases):
         norb = rng.choice([2, 2, 3])
         w = C01.make_wfn(ctx, rng.choice(["single", "multi"]), norb, rng)
